@@ -28,6 +28,12 @@ SameDoc(a, b) ==
   /\ a.m = b.m /\ a.lab = b.lab /\ a.ordered = b.ordered
 SetOfSeq(s) == {s[i] : i \in DOMAIN s}
 
+\* the leaf assignment a written solution must carry: the given one, or - when the
+\* input gives none - the one inferred from the leaf names by the documented rule
+ExpectedLm(e) ==
+  IF e.given.infer = <<>> THEN e.given.lm
+  ELSE [i \in DOMAIN e.given.infer |-> <<e.given.infer[i][1], InferSpecies(e.given.infer[i][2], e.given.species)>>]
+
 Clauses(e) ==
   CASE e.op = "roundtrip" ->
          (IF ~SameDoc(e.before, e.after) THEN {"ClauseSameDocument"} ELSE {})
@@ -43,7 +49,7 @@ Clauses(e) ==
                                                  \/ ~NamesOK(e.given.snames, e.lines[i].snames, "S")
                     THEN {"ClauseNodeNames"} ELSE {})
               \cup (IF \E i \in DOMAIN e.lines : e.lines[i].cost # e.printed THEN {"ClausePrintedCost"} ELSE {})
-              \cup (IF \E i \in DOMAIN e.lines : e.lines[i].lm # e.given.lm THEN {"ClauseLeafAssignment"} ELSE {})
+              \cup (IF \E i \in DOMAIN e.lines : e.lines[i].lm # ExpectedLm(e) THEN {"ClauseLeafAssignment"} ELSE {})
               \cup (IF \E i \in DOMAIN e.drawn : ~e.drawn[i] THEN {"ClauseDrawAccepts"} ELSE {})
               \cup (IF e.policy = "any" /\ Len(e.lines) > 1 THEN {"ClauseAnyOne"} ELSE {})
     [] e.op = "cli-pair" ->
